@@ -42,7 +42,9 @@ fn c04_native() {
     let Ok(spec) = std::env::var("C04_CASES") else { return };
     for (i, case) in spec.split(';').filter(|x| !x.is_empty()).enumerate() {
         let parts: Vec<&str> = case.split('|').collect();
-        let (op, tag, p) = (parts[0], dec(parts[1]), dec(parts[2]));
+        // tag `x`: the tag comes from an @optional scope that does not exist (every value passes)
+        let nonexistent = parts[1].trim() == "x";
+        let (op, tag, p) = (parts[0], if nonexistent { FieldValue::Null } else { dec(parts[1]) }, dec(parts[2]));
         let (operation, passes): (Operation<(), ()>, bool) = match op {
             "Equals" => (Operation::Equals((), ()), f::equals(&p, &tag)),
             "NotEquals" => (Operation::NotEquals((), ()), !f::equals(&p, &tag)),
@@ -53,8 +55,13 @@ fn c04_native() {
             "OneOf" => (Operation::OneOf((), ()), f::one_of(&p, &tag)),
             other => panic!("operator {other}"),
         };
-        let cand = h::dynamic_candidate(&operation, CandidateValue::All, Some(tag));
-        println!("C04CASE {i} passes={passes} member={}", member(&cand, &p));
+        let passes = passes || nonexistent;
+        let tagv = if nonexistent { None } else { Some(tag) };
+        let cand = std::panic::catch_unwind(move || h::dynamic_candidate(&operation, CandidateValue::All, tagv));
+        match cand {
+            Ok(cand) => println!("C04CASE {i} passes={passes} member={}", member(&cand, &p)),
+            Err(_) => println!("C04CASE {i} passes={passes} member=panic"),
+        }
     }
 }
 
